@@ -1,16 +1,17 @@
 SPECIFICATION Spec
 CONSTANTS
-  CELLS <- CELLS_q
-  SCR <- SCR_q
-  SCRWV <- SCRWV_q
-  CENTS <- CENTS_none
+  CELLS <- CELLS_t
+  SCR <- SCRWV_t
+  SCRWV <- SCRWV_t
+  CENTS <- CENTS_std
   PROBES <- PROBES_std
   TOLS <- TOLS_std
   TIES = "even"
   MODFIX = FALSE
   COLFIX = TRUE
-  WVFIX = TRUE
+  WVFIX = FALSE
   NTRYFIX = TRUE
   MAXIT = 10
-INVARIANT MinkAlways
+INVARIANT SameLattice
+INVARIANT Emit
 CHECK_DEADLOCK FALSE
